@@ -114,7 +114,20 @@ impl RustDocument {
     }
 
     pub fn add_namespace_reference(&mut self, original_abbreviation: &str, url: &str) {
-        if original_abbreviation.is_empty() || url.is_empty() {
+        if original_abbreviation.is_empty() {
+            return;
+        }
+        self.register_namespace(original_abbreviation, url);
+    }
+
+    /// The default namespace (`xmlns="..."`): a QName without a prefix belongs to it. It is kept under the empty
+    /// abbreviation.
+    pub fn add_default_namespace(&mut self, url: &str) {
+        self.register_namespace("", url);
+    }
+
+    fn register_namespace(&mut self, original_abbreviation: &str, url: &str) {
+        if url.is_empty() {
             return;
         }
 
@@ -155,6 +168,12 @@ impl RustDocument {
 
     pub fn find_namespace_by_abbreviation(&self, abbreviation: &str) -> Option<&Rc<Namespace>> {
         self.namespace_lookup.get(abbreviation)
+    }
+
+    /// The namespace a QName with this prefix belongs to; without a prefix that is the default namespace, if one
+    /// is declared.
+    pub fn find_namespace_of_prefix(&self, prefix: Option<&str>) -> Option<&Rc<Namespace>> {
+        self.find_namespace_by_abbreviation(prefix.unwrap_or(""))
     }
 
     pub fn find_namespace(&self, url: &str) -> Option<&Rc<Namespace>> {
